@@ -256,7 +256,13 @@ package nodes
 // The outer joins: a record whose key contains a NULL matches nothing; on an outer side it is an unmatched row — one
 // output record: the row's own columns (copied to its side of the layout), NULL in every column of the other side,
 // the record's own retraction flag and event time; on the other side nothing is produced.
+// The padding passes (a decision table over the record trees' answers, which are library calls): when the other side
+// holds rows for the key, the joined rows are produced by one scan of them; if the other side is an outer side — its
+// unmatched rows are out there padded with NULLs — the first record of the key on this side is preceded by one more scan
+// (retracting the padded rows) and the retraction of the last one is followed by one more (bringing them back); never
+// otherwise. Which rows those scans produce is not under contract (tidwall/btree has no theory here).
 //@ func (*OuterJoin).receiveRecord
+//@   ensures padding: result == nil && calls(libScan) > old(calls(libScan)) ==> calls(libScan) - old(calls(libScan)) == 1 + ite(firstRecordForThatKeyOnThisSide && ((s.isOuterLeft && !amLeft) || (s.isOuterRight && amLeft)), 1, 0) + ite(lastRetractionForThatKeyOnThisSide && ((s.isOuterLeft && !amLeft) || (s.isOuterRight && amLeft)), 1, 0)
 //@   requires layout: s.leftFieldCount >= 0 && s.rightFieldCount >= 0 && len(record.Values) == ite(amLeft, s.leftFieldCount, s.rightFieldCount)
 //@   loop 1 invariant keys: len(key) == len(keyExprs) && forall(j, 0, $k, evalErr(keyExprs[j], ctx) == nil && same(key[j], evalVal(keyExprs[j], ctx)))
 //@   loop 2 invariant nonnull: 0 <= $k && $k <= len(key) && forall(j, 0, $k, key[j].TypeID != 0)
